@@ -162,6 +162,18 @@ def build_wf(spec, env):
         return call_styled(KaiserWaveform.from_max_val, ["max_val", "area"], [E(spec["mx"], env), E(spec["area"], env)], opt, st)
     if k == "interp":
         opt = [("times", E(spec["times"], env))] if spec.get("times") is not None else []
+        extra = {}
+        if spec.get("interp") is not None:
+            extra["interpolator"] = spec["interp"]
+        extra.update(spec.get("ikw") or {})
+        if extra:
+            # interpolator and its keyword arguments can only be given by keyword
+            if st == "pos" and opt:
+                st = "mix"
+            args = [E(spec["d"], env), E(spec["values"], env)]
+            if st == "kw":
+                return InterpolatedWaveform(duration=args[0], values=args[1], **dict(opt), **extra)
+            return InterpolatedWaveform(*args, **dict(opt), **extra)
         return call_styled(InterpolatedWaveform, ["duration", "values"], [E(spec["d"], env), E(spec["values"], env)], opt, st)
     if k == "custom":
         return call_styled(CustomWaveform, ["samples"], [E(spec["samples"], env)], [], st)
@@ -315,6 +327,26 @@ def f1(x) -> str:
     return "nan" if v != v else v.hex()
 
 
+def wf_params(w):
+    """defining parameters of a concrete waveform (class, constructor
+    arguments, interpolator and its keyword arguments)"""
+    if isinstance(w, CompositeWaveform):
+        return ("CompositeWaveform", tuple(wf_params(x) for x in w._waveforms))
+    f = CONCRETE_FIELDS.get(type(w))
+    if f is None:
+        return (type(w).__name__,)
+    name, args, kwargs = f(w)
+    out = [name]
+    for a in list(args) + [kwargs[k] for k in sorted(kwargs)]:
+        if isinstance(a, str) or a is None:
+            out.append(repr(a))
+        else:
+            out.append(np.asarray(a.as_array(detach=True) if hasattr(a, "as_array") else a, dtype=float).tobytes())
+    if isinstance(w, InterpolatedWaveform):
+        out.append(tuple(sorted((k, repr(v)) for k, v in w._kwargs.items() if k != "times")))
+    return tuple(out)
+
+
 def pulse_snap(p: Pulse):
     return (
         "pulse",
@@ -325,6 +357,8 @@ def pulse_snap(p: Pulse):
         f1(p.post_phase_shift),
         type(p.amplitude).__name__,
         type(p.detuning).__name__,
+        wf_params(p.amplitude),
+        wf_params(p.detuning),
     )
 
 
@@ -437,8 +471,9 @@ def diff_snap(a: dict, b: dict, prefix=""):
                     return prefix + "slots:targets"
                 if s[2] != t[2]:
                     if isinstance(s[2], tuple) and isinstance(t[2], tuple):
-                        names = ["", "duration", "amplitude", "detuning", "phase", "post_phase_shift", "amp-class", "det-class"]
-                        for i in range(1, 8):
+                        names = ["", "duration", "amplitude", "detuning", "phase", "post_phase_shift", "amp-class", "det-class",
+                                 "amp-parameters", "det-parameters"]
+                        for i in range(1, 10):
                             if s[2][i] != t[2][i]:
                                 return prefix + "pulse:" + names[i]
                     return prefix + "slots:kind"
@@ -655,7 +690,13 @@ CONCRETE_FIELDS = {
     RampWaveform: lambda w: ("RampWaveform", [w._duration, w._start, w._stop], {}),
     BlackmanWaveform: lambda w: ("BlackmanWaveform", [w._duration, w._area], {}),
     KaiserWaveform: lambda w: ("KaiserWaveform", [w._duration, w._area], {"beta": w._beta}),
-    InterpolatedWaveform: lambda w: ("InterpolatedWaveform", [w._duration, w._values], {"times": w._times}),
+    # _to_abstract_repr refuses a non-default interpolator / extra keyword arguments: they
+    # are presented as keyword arguments (outside the signature, so the model refuses too)
+    InterpolatedWaveform: lambda w: (
+        "InterpolatedWaveform", [w._duration, w._values],
+        {"times": w._times,
+         **({k: v for k, v in w._kwargs.items() if k != "times"}
+            if (w._kwargs["interpolator"] != "PchipInterpolator" or set(w._kwargs) - {"times", "interpolator"}) else {})}),
     CustomWaveform: lambda w: ("CustomWaveform", [w._samples], {}),
     CompositeWaveform: lambda w: ("CompositeWaveform", list(w._waveforms), {}),
 }
